@@ -1,0 +1,28 @@
+//go:build verif
+// +build verif
+
+package moss
+
+// Verification hooks, enabled with `-tags verif`.  They let an external
+// harness park the background goroutines at named points and be told about
+// file removals.  They never change behaviour on their own.
+
+// VerifGate, when non-nil, is called by the merger and the persister at
+// the named points ("merger:ingest", "merger:swap", "merger:handover",
+// "persister:begin", "persister:publish") without any lock held.
+var VerifGate func(name string, c Collection)
+
+// VerifOnRemove, when non-nil, is called just before a file is unlinked.
+var VerifOnRemove func(path string)
+
+func verifGate(name string, m *collection) {
+	if g := VerifGate; g != nil {
+		g(name, m)
+	}
+}
+
+func verifOnRemove(path string) {
+	if f := VerifOnRemove; f != nil {
+		f(path)
+	}
+}
